@@ -482,6 +482,11 @@ package plush
 // C11: a method call x.M(...) invokes the method named M of the value x evaluates to (looked up on the
 // value, else on a pointer to a copy of it), with exactly the name written in the template
 //@ assert methodname: node.Callee != nil && is(node.Function, "*ast.Identifier") ==> mname == unbox(node.Function, "*ast.Identifier").Value before MethodByName#1
+// C11/C05: a method the receiver does not have is an error - the call never yields the receiver itself
+// (with a pointer receiver exactly one lookup is made; a value receiver gets a second one on its address)
+//@ ghost meth = callresult after MethodByName#1
+//@ ghost meth2 = callresult after MethodByName#2
+//@ ensures nomethod: node.Callee != nil && ((calls(MethodByName) == 1 && !rvValid(meth)) || (calls(MethodByName) == 2 && !rvValid(meth2))) ==> err != nil
 //@ assert methodrecv: node.Callee != nil ==> callarg0 == rvMethod(rvOf(fnv), mname) || callarg0 == rvMethod(rvNew(dyn(fnv)), mname) before Call#1
 // C12: a fixed-arity helper is never invoked with more arguments than it has parameters
 //@ ensures toomany: calls(Call) > 0 && node.Callee == nil && !isVariadic(rt) ==> len(node.Arguments) <= rtNumIn
